@@ -32,7 +32,8 @@ import (
 func init() { verifCmds["abs"] = absMain }
 
 type absHint struct {
-	kind    string // "votereq", "voteres", "send", "recv", "ack"
+	kind    string   // "votereq", "voteres", "send", "recv", "ack", "install"
+	absK    []string // install: the log prefix the snapshot stands for (abstract entries)
 	term    uint64
 	cand    uint64
 	from    uint64
@@ -46,14 +47,17 @@ type absShadow struct {
 	pay     map[string]uint64
 	events  []string
 	last    map[uint64]string // node -> last listed projection
-	pre     string
 	preTerm uint64
+	// logical logs: the abstract log keeps what compaction removed
+	ghost   map[uint64][]string // node -> abstract entries of impl indices 2..log.PrevIndex()
+	prePrev uint64
+	preEnts []string // abstract entries of the event node's real log before the event (impl indices prePrev+1..last)
 	dist    map[string]int
 	bad     string // the projection cannot be taken (compaction in static mode etc.)
 }
 
 func newAbsShadow() *absShadow {
-	return &absShadow{pay: map[string]uint64{}, last: map[uint64]string{}, dist: map[string]int{}}
+	return &absShadow{pay: map[string]uint64{}, last: map[uint64]string{}, dist: map[string]int{}, ghost: map[uint64][]string{}}
 }
 
 func sat1(x uint64) uint64 {
@@ -73,12 +77,44 @@ func (a *absShadow) payload(e *entry) uint64 {
 	return id
 }
 
-func (a *absShadow) entries(es []*entry) string {
+func (a *absShadow) entryLits(es []*entry) []string {
 	var p []string
 	for _, e := range es {
 		p = append(p, fmt.Sprintf("(%d,%d)", e.term, a.payload(e)))
 	}
-	return "[" + strings.Join(p, ";") + "]"
+	return p
+}
+
+func (a *absShadow) entries(es []*entry) string {
+	return "[" + strings.Join(a.entryLits(es), ";") + "]"
+}
+
+// realEntries: the entries physically in the log, from impl index max(prev+1, 2)
+func (a *absShadow) realEntries(n *simNode) []*entry {
+	r := n.r
+	var es []*entry
+	from := r.log.PrevIndex() + 1
+	if from < 2 {
+		from = 2
+	}
+	for i := from; i <= r.log.LastIndex(); i++ {
+		e := &entry{}
+		if err := r.storage.getEntry(i, e); err != nil {
+			a.bad = fmt.Sprintf("node %d: entry %d unreadable: %v", r.nid, i, err)
+			break
+		}
+		es = append(es, e)
+	}
+	return es
+}
+
+// logical: the abstract log of n = what compaction removed ++ what is in the log
+func (a *absShadow) logical(n *simNode) []string {
+	g := a.ghost[n.r.nid]
+	if uint64(len(g)) != sat1(n.r.log.PrevIndex()) {
+		a.bad = fmt.Sprintf("node %d: %d compacted entries remembered, log starts after %d", n.r.nid, len(g), n.r.log.PrevIndex())
+	}
+	return append(append([]string{}, g...), a.entryLits(a.realEntries(n))...)
 }
 
 func absRole(s State) string {
@@ -94,20 +130,13 @@ func absRole(s State) string {
 // obs of one live node
 func (a *absShadow) obs(n *simNode) string {
 	r := n.r
-	if r.log.PrevIndex() != 0 {
-		a.bad = fmt.Sprintf("node %d compacted its log (prev %d) in a static run", r.nid, r.log.PrevIndex())
+	// what a snapshot covers is durable
+	fl := sat1(log.VerifFlushed(r.log))
+	if s := sat1(r.snaps.index); s > fl {
+		fl = s
 	}
-	var es []*entry
-	for i := uint64(2); i <= r.log.LastIndex(); i++ {
-		e := &entry{}
-		if err := r.storage.getEntry(i, e); err != nil {
-			a.bad = fmt.Sprintf("node %d: entry %d unreadable: %v", r.nid, i, err)
-			break
-		}
-		es = append(es, e)
-	}
-	return fmt.Sprintf("(mkO %d %d %s %s %d%%nat %d%%nat)", r.term, r.votedFor, absRole(r.state), a.entries(es),
-		sat1(log.VerifFlushed(r.log)), sat1(r.commitIndex))
+	return fmt.Sprintf("(mkO %d %d %s [%s] %d%%nat %d%%nat)", r.term, r.votedFor, absRole(r.state), strings.Join(a.logical(n), ";"),
+		fl, sat1(r.commitIndex))
 }
 
 func (a *absShadow) areq(q *appendReq, es []*entry) string {
@@ -145,6 +174,33 @@ func decodeAppendWire(wire []byte) (*appendReq, []*entry) {
 // before: called at the start of an event on node n
 func (a *absShadow) before(n *simNode) {
 	a.preTerm = n.r.term
+	a.prePrev = n.r.log.PrevIndex()
+	a.preEnts = a.entryLits(a.realEntries(n))
+}
+
+// compacted: the event moved the start of n's log; remember what was removed
+func (a *absShadow) compacted(n *simNode, h absHint) {
+	id := n.r.nid
+	np := n.r.log.PrevIndex()
+	if np <= a.prePrev {
+		return
+	}
+	if h.kind == "install" && uint64(len(h.absK)) == sat1(np) {
+		// the log now starts right after the installed snapshot: its compacted prefix is what the snapshot stands for
+		a.ghost[id] = append([]string{}, h.absK...)
+		return
+	}
+	// own compaction: a prefix of the log as it was before the event
+	first := a.prePrev + 1 // impl index of preEnts[0] ...
+	if first < 2 {
+		first = 2
+	}
+	k := int(np + 1 - first) // number of entries removed from the front of preEnts
+	if k < 0 || k > len(a.preEnts) {
+		a.bad = fmt.Sprintf("node %d: log start moved from %d to %d, %d entries were held", id, a.prePrev, np, len(a.preEnts))
+		return
+	}
+	a.ghost[id] = append(a.ghost[id], a.preEnts[:k]...)
 }
 
 // record: called after an event on node n (all role transitions done)
@@ -152,9 +208,14 @@ func (a *absShadow) record(c *simCluster, n *simNode, ev string, h absHint, cras
 	id := n.r.nid
 	var lit string
 	r := n.r
+	if !crashed {
+		a.compacted(n, h)
+	}
 	switch {
 	case crashed:
-		lit = fmt.Sprintf("ACrash %d", id)
+		lit = fmt.Sprintf("ACrash %d %d%%nat", id, sat1(r.commitIndex))
+	case h.kind == "install" && h.granted:
+		lit = fmt.Sprintf("AInstall %d %d %d [%s] %d%%nat", id, h.term, h.from, strings.Join(h.absK, ";"), sat1(r.commitIndex))
 	case h.kind == "votereq":
 		lit = fmt.Sprintf("AVoteReq %d %d %d %s", id, h.term, h.cand, coqBool(h.granted))
 	case h.kind == "voteres":
@@ -297,10 +358,10 @@ func absMain(args []string) int {
 		finish(c, nsc, "scenario "+sc.name, sc.size)
 	}
 	for s := 0; s < nseq; s++ {
-		c := &simCluster{rnd: rnd, w: w, base: simTempDir(out, "ab"), opt: simOptions(1 << 20), nodes: map[uint64]*simNode{}, dirs: map[uint64]string{},
+		c := &simCluster{rnd: rnd, w: w, base: simTempDir(out, "ab"), opt: simOptions(1 << 16), nodes: map[uint64]*simNode{}, dirs: map[uint64]string{},
 			epoch: map[uint64]int{}, reqs: map[*replication]*appendReq{}, pipes: map[[2]uint64][]*simMsg{}, await: map[[2]uint64]int{}, piping: map[[2]uint64]bool{}, upd: map[uint64][]replUpdate{},
 			tasks: map[uint64][]*simTask{}, asked: map[uint64]map[uint64]bool{}, respCh: map[uint64]chan rpcResponse{},
-			elected: map[uint64]uint64{}, entries: map[[2]uint64]string{}, committed: map[uint64]string{}, static: true, abs: newAbsShadow(), calm: s%2 == 1}
+			elected: map[uint64]uint64{}, entries: map[[2]uint64]string{}, committed: map[uint64]string{}, static: true, abs: newAbsShadow(), calm: s%2 == 1, nosnap: s%4 == 0}
 		if s%3 == 2 {
 			c.opt = simOptions(1024) // small segments: roll-over flushes
 		}
